@@ -22,6 +22,7 @@
 #include <nano/wlearner/hinge.h>
 #include <nano/wlearner/stump.h>
 #include <nano/wlearner/table.h>
+#include <algorithm>
 #include <cmath>
 #include <cstring>
 #include <cstdio>
@@ -230,8 +231,59 @@ static int dstep_scenario()
     return same_rss ? 0 : 1;
 }
 
+// fourth scenario (targets *_do_split, "split assigns exactly the given samples, by sample index"):   C10_replay split
+// the real hinge is fitted on x = {1,1,1,1,2,2,2,2,3,3} and split() is called with the unordered list (9,4,7,0,8,4,5): every
+// dataset sample must get group 0 iff it is in the list and its value is on the active side, no group otherwise.
+static int split_scenario()
+{
+    auto datasource = ties_datasource_t{};
+    datasource.load();
+    auto dataset = dataset_t{datasource, 1U};
+    dataset.add<scalar_identity_generator_t>();
+
+    const auto     N           = ties_datasource_t::N;
+    const scalar_t residuals[] = {-2.1, -1.9, -2.2, -1.8, -1.0, -1.1, +0.1, -0.1, 0.2, -0.2};
+    auto           all         = indices_t{N};
+    auto           gradients   = tensor4d_t{make_dims(N, 1, 1, 1)};
+    for (tensor_size_t i = 0; i < N; ++i)
+    {
+        all(i)       = i;
+        gradients(i) = -residuals[i];
+    }
+    auto wlearner                             = hinge_wlearner_t{};
+    wlearner.parameter("wlearner::criterion") = wlearner_criterion::rss;
+    if (wlearner.fit(dataset, all, gradients) == wlearner_t::no_fit_score())
+    {
+        std::printf("hinge: no fit\n");
+        return 0;
+    }
+    const auto samples = make_indices(9, 4, 7, 0, 8, 4, 5);
+    const auto cluster = wlearner.split(dataset, samples);
+    auto       bad     = 0;
+    for (tensor_size_t s = 0; s < N; ++s)
+    {
+        const auto x      = ties_datasource_t::value(s);
+        const auto listed = std::find(samples.begin(), samples.end(), s) != samples.end();
+        const auto active = wlearner.hinge() == hinge_type::left ? (x < wlearner.threshold()) : (x >= wlearner.threshold());
+        const auto expect = (listed && active) ? 0 : -1;
+        if (cluster.group(s) != expect)
+        {
+            std::printf("  sample %ld (x=%g, %s the list, %s): split reports group %ld, expected %d\n", static_cast<long>(s), x, listed ? "in" : "NOT in",
+                        active ? "active" : "inactive", static_cast<long>(cluster.group(s)), expect);
+            ++bad;
+        }
+    }
+    std::printf("hinge(threshold=%g, %s) split on the list (9,4,7,0,8,4,5): %d of %ld dataset samples with a wrong group\n", wlearner.threshold(),
+                wlearner.hinge() == hinge_type::left ? "left" : "right", bad, static_cast<long>(N));
+    return bad > 0 ? 1 : 0;
+}
+
 int main(int argc, char* argv[])
 {
+    if (argc > 1 && std::strcmp(argv[1], "split") == 0)
+    {
+        return split_scenario();
+    }
     if (argc > 1 && std::strcmp(argv[1], "dstep") == 0)
     {
         return dstep_scenario();
